@@ -20,7 +20,7 @@ theorem append_ok_nil (a : Out Bytes) : a.append (.ok []) = a := by
 
 /-- one V9 field specifier -/
 theorem tfield_prog (vc : ValueCfg) (f : TField) (env : EEnv) :
-    runL vc [.num ["field", "field_type_number"] 2, .num ["field", "field_length"] 2] (("field", treeOfTField f) :: env)
+    runL vc [.num ["b3", "field_type_number"] 2, .num ["b3", "field_length"] 2] (("b3", treeOfTField f) :: env)
       = .ok (exportTField f) := by
   simp [runL, runE, EEnv.path, ETree.walk, ETree.field, treeOfTField, List.lookup, Out.append, exportTField]
 
@@ -62,9 +62,9 @@ macro "path_simp_h " h:term : tactic => `(tactic|
 
 /-- one V9 template record -/
 theorem v9template_prog (vc : ValueCfg) (t : V9Template) (env : EEnv) :
-    runL vc [.num ["template", "template_id"] 2, .num ["template", "field_count"] 2,
-             .each ["template", "fields"] "field" [.num ["field", "field_type_number"] 2, .num ["field", "field_length"] 2]]
-        (("template", treeOfV9Template t) :: env)
+    runL vc [.num ["b2", "template_id"] 2, .num ["b2", "field_count"] 2,
+             .each ["b2", "fields"] "b3" [.num ["b3", "field_type_number"] 2, .num ["b3", "field_length"] 2]]
+        (("b2", treeOfV9Template t) :: env)
       = .ok (exportV9Template t) := by
   rw [runL_cons, runL_cons, runL_cons, runL_nil,
       runE_num vc _ 2 t.id _ (by path_simp), runE_num vc _ 2 t.fieldCount _ (by path_simp),
@@ -75,10 +75,10 @@ theorem v9template_prog (vc : ValueCfg) (t : V9Template) (env : EEnv) :
 
 /-- one V9 options template record -/
 theorem v9opttemplate_prog (vc : ValueCfg) (t : V9OptTemplate) (env : EEnv) :
-    runL vc [.num ["template", "template_id"] 2, .num ["template", "options_scope_length"] 2, .num ["template", "options_length"] 2,
-             .each ["template", "scope_fields"] "field" [.num ["field", "field_type_number"] 2, .num ["field", "field_length"] 2],
-             .each ["template", "option_fields"] "field" [.num ["field", "field_type_number"] 2, .num ["field", "field_length"] 2]]
-        (("template", treeOfV9OptTemplate t) :: env)
+    runL vc [.num ["b2", "template_id"] 2, .num ["b2", "options_scope_length"] 2, .num ["b2", "options_length"] 2,
+             .each ["b2", "scope_fields"] "b3" [.num ["b3", "field_type_number"] 2, .num ["b3", "field_length"] 2],
+             .each ["b2", "option_fields"] "b3" [.num ["b3", "field_type_number"] 2, .num ["b3", "field_length"] 2]]
+        (("b2", treeOfV9OptTemplate t) :: env)
       = .ok (exportV9OptTemplate t) := by
   rw [runL_cons, runL_cons, runL_cons, runL_cons, runL_cons, runL_nil,
       runE_num vc _ 2 t.id _ (by path_simp), runE_num vc _ 2 t.scopeLen _ (by path_simp), runE_num vc _ 2 t.optLen _ (by path_simp),
@@ -105,7 +105,7 @@ theorem rec_prog (vc : ValueCfg) (x y : String) (r : Rec) (env : EEnv) :
 
 
 theorem v9templates_prog (vc : ValueCfg) (ts : List V9Template) (pad : Bytes) (env : EEnv) :
-    runL vc v9TemplatesProg (("templates", .struct [("templates", .list (ts.map treeOfV9Template)), ("padding", .bytes pad)]) :: env)
+    runL vc v9TemplatesProg (("b1", .struct [("templates", .list (ts.map treeOfV9Template)), ("padding", .bytes pad)]) :: env)
       = .ok (ts.flatMap exportV9Template ++ pad) := by
   unfold v9TemplatesProg tfieldProg
   rw [runL_cons, runL_cons, runL_nil, runE_each vc _ _ _ _ ts treeOfV9Template (by path_simp), runE_bytes vc _ pad _ (by path_simp)]
@@ -114,7 +114,7 @@ theorem v9templates_prog (vc : ValueCfg) (ts : List V9Template) (pad : Bytes) (e
   simp [Out.append]
 
 theorem v9opttemplates_prog (vc : ValueCfg) (ts : List V9OptTemplate) (pad : Bytes) (env : EEnv) :
-    runL vc v9OptTemplatesProg (("options_templates", .struct [("templates", .list (ts.map treeOfV9OptTemplate)), ("padding", .bytes pad)]) :: env)
+    runL vc v9OptTemplatesProg (("b1", .struct [("templates", .list (ts.map treeOfV9OptTemplate)), ("padding", .bytes pad)]) :: env)
       = .ok (ts.flatMap exportV9OptTemplate ++ pad) := by
   unfold v9OptTemplatesProg tfieldProg
   rw [runL_cons, runL_cons, runL_nil, runE_each vc _ _ _ _ ts treeOfV9OptTemplate (by path_simp), runE_bytes vc _ pad _ (by path_simp)]
@@ -132,7 +132,7 @@ theorem data_prog (vc : ValueCfg) (d x y : String) (recs : List Rec) (pad : Byte
 
 theorem v9optdata_prog (vc : ValueCfg) (ss os : List (Nat × Bytes)) (pad : Bytes) (env : EEnv) :
     runL vc v9OptDataProg
-        (("options_data", .struct [("scope_fields", .list (ss.map fun s => .variant (scopeVariantName s.1) (.bytes s.2))),
+        (("b1", .struct [("scope_fields", .list (ss.map fun s => .variant (scopeVariantName s.1) (.bytes s.2))),
                                    ("options_fields", .list (os.map fun o => .struct [("field_value", .bytes o.2)])),
                                    ("padding", .bytes pad)]) :: env)
       = .ok (ss.flatMap (·.2) ++ os.flatMap (·.2) ++ pad) := by
@@ -148,10 +148,10 @@ theorem v9optdata_prog (vc : ValueCfg) (ss os : List (Nat × Bytes)) (pad : Byte
   simp [Out.append]
 
 theorem v9set_body_path (s : V9Set) (env : EEnv) :
-    EEnv.path (("set", treeOfV9Set s) :: env) ["set", "body"] = some (treeOfV9Body s.body) := by path_simp
+    EEnv.path (("b0", treeOfV9Set s) :: env) ["b0", "body"] = some (treeOfV9Body s.body) := by path_simp
 
 theorem v9set_prog (vc : ValueCfg) (s : V9Set) (env : EEnv) :
-    runL vc v9SetProg (("set", treeOfV9Set s) :: env) = exportV9Set vc s := by
+    runL vc v9SetProg (("b0", treeOfV9Set s) :: env) = exportV9Set vc s := by
   unfold v9SetProg exportV9Set
   rw [runL_cons, runL_cons, runL_cons, runL_cons, runL_cons, runL_cons, runL_nil,
       runE_num vc _ 2 s.id _ (by path_simp), runE_num vc _ 2 s.len _ (by path_simp)]
@@ -192,7 +192,7 @@ theorem v9ExportProg_shape :
     Generated.v9ExportProg =
       [.num ["self", "header", "version"] 2, .num ["self", "header", "count"] 2, .num ["self", "header", "sys_up_time"] 4,
        .num ["self", "header", "unix_secs"] 4, .num ["self", "header", "sequence_number"] 4, .num ["self", "header", "source_id"] 4,
-       .each ["self", "flowsets"] "set" v9SetProg] := rfl
+       .each ["self", "flowsets"] "b0" v9SetProg] := rfl
 
 theorem v9hdr_path (c : Config) (hc : c.t.v9Hdr = Generated.v9Hdr) (h : List Nat) (sets : List V9Set) (n : String)
     (hn : n ∈ ["version", "count", "sys_up_time", "unix_secs", "sequence_number", "source_id"]) :
@@ -225,7 +225,7 @@ theorem v9_prog (c : Config) (hc : c.t.v9Hdr = Generated.v9Hdr) (ho : c.t.v9HdrO
 
 
 theorem ipfield_prog (vc : ValueCfg) (f : IpTField) (env : EEnv) :
-    runL vc ipFieldProg (("field", treeOfIpTField f) :: env) = .ok (exportIpTField f) := by
+    runL vc ipFieldProg (("b2", treeOfIpTField f) :: env) = .ok (exportIpTField f) := by
   unfold ipFieldProg
   rw [runL_cons, runL_cons, runL_cons, runL_nil, runE_num vc _ 2 f.typ _ (by path_simp), runE_num vc _ 2 f.len _ (by path_simp)]
   cases he : f.ent with
@@ -242,7 +242,7 @@ theorem ipfield_prog (vc : ValueCfg) (f : IpTField) (env : EEnv) :
 
 theorem iptemplate_prog (vc : ValueCfg) (t : IpTemplate) (env : EEnv) :
     runL vc ipTemplateProg
-        (("template", .struct [("template_id", .num t.id), ("field_count", .num t.fieldCount),
+        (("b1", .struct [("template_id", .num t.id), ("field_count", .num t.fieldCount),
             ("fields", .list (t.fields.map treeOfIpTField)), ("padding", .bytes t.pad)]) :: env)
       = .ok (toBE 2 t.id ++ toBE 2 t.fieldCount ++ t.fields.flatMap exportIpTField ++ t.pad) := by
   unfold ipTemplateProg
@@ -254,7 +254,7 @@ theorem iptemplate_prog (vc : ValueCfg) (t : IpTemplate) (env : EEnv) :
 
 theorem ipopttemplate_prog (vc : ValueCfg) (t : IpOptTemplate) (env : EEnv) :
     runL vc ipOptTemplateProg
-        (("options_template", .struct [("template_id", .num t.id), ("field_count", .num t.fieldCount), ("scope_field_count", .num t.scopeCount),
+        (("b1", .struct [("template_id", .num t.id), ("field_count", .num t.fieldCount), ("scope_field_count", .num t.scopeCount),
             ("fields", .list (t.fields.map treeOfIpTField)), ("padding", .bytes t.pad)]) :: env)
       = .ok (toBE 2 t.id ++ toBE 2 t.fieldCount ++ toBE 2 t.scopeCount ++ t.fields.flatMap exportIpTField ++ t.pad) := by
   unfold ipOptTemplateProg
@@ -266,10 +266,10 @@ theorem ipopttemplate_prog (vc : ValueCfg) (t : IpOptTemplate) (env : EEnv) :
   simp [Out.append]
 
 theorem ipset_body_path (s : IpSet) (env : EEnv) :
-    EEnv.path (("flow", treeOfIpSet s) :: env) ["flow", "body"] = some (treeOfIpBody s.body) := by path_simp
+    EEnv.path (("b0", treeOfIpSet s) :: env) ["b0", "body"] = some (treeOfIpBody s.body) := by path_simp
 
 theorem ipset_prog (vc : ValueCfg) (s : IpSet) (env : EEnv) :
-    runL vc ipSetProg (("flow", treeOfIpSet s) :: env) = exportIpSet vc s := by
+    runL vc ipSetProg (("b0", treeOfIpSet s) :: env) = exportIpSet vc s := by
   unfold ipSetProg exportIpSet
   rw [runL_cons, runL_cons, runL_cons, runL_cons, runL_cons, runL_cons, runL_nil,
       runE_num vc _ 2 s.id _ (by path_simp), runE_num vc _ 2 s.len _ (by path_simp)]
@@ -309,7 +309,7 @@ theorem ipExportProg_shape :
     Generated.ipExportProg =
       [.num ["self", "header", "version"] 2, .num ["self", "header", "length"] 2, .num ["self", "header", "export_time"] 4,
        .num ["self", "header", "sequence_number"] 4, .num ["self", "header", "observation_domain_id"] 4,
-       .each ["self", "flowsets"] "flow" ipSetProg] := rfl
+       .each ["self", "flowsets"] "b0" ipSetProg] := rfl
 
 theorem iphdr_path (c : Config) (hc : c.t.ipHdr = Generated.ipHdr) (h : List Nat) (sets : List IpSet) (n : String)
     (hn : n ∈ ["version", "length", "export_time", "sequence_number", "observation_domain_id"]) :
